@@ -103,7 +103,9 @@ def extract(config="W", repo=REPO, quiet=False):
             shutil.rmtree(out)
         os.makedirs(out)
         t0 = time.time()
-        tgt = os.path.join(CACHE, "target", config) if repo == REPO else "-"
+        tgt = os.path.join(CACHE, "target", config) if repo == "/repo" else "-"
+        if os.environ.get("VERIF_TARGET"):  # a second persistent dependency cache for a scratch tree (tools/try_patch_at.sh)
+            tgt = os.path.join(os.environ["VERIF_TARGET"], config)
         cmd = [os.path.join(VERIF, "driver", "run.sh"), repo, out, config, tgt] + CONFIGS[config]
         if not quiet:
             print(f"[facts] extracting config {config} from {repo} (tree {th}) ...", flush=True)
@@ -200,6 +202,9 @@ class Facts:
                 for h in d["hir"]:
                     renamed += canonical_locals(h, ref.get(h["path"]))
                 self.renamed_locals = getattr(self, "renamed_locals", 0) + renamed
+            if os.environ.get("VERIF_MUTATE"):  # checker self-assessment only (rules/hirmut.py, tools/hir_mutation_score.py)
+                from . import hirmut
+                hirmut.apply(d, f"{name}/{kind}", os.environ["VERIF_MUTATE"])
             self._crates[key] = d
             self._idx[key] = {
                 "fns": {f["path"]: f for f in d["fns"]},
